@@ -440,6 +440,25 @@ def opRender (j : Json) : Except String Json := do
   | some out => return Json.mkObj [("out", Json.str (String.ofList out))]
   | none => return Json.mkObj [("none", true)]
 
+/-- `generate_rpc`: what the rpc layer of the C++ generator adds to a schema (FcpModel/Rpc.lean) -/
+def opRpc (j : Json) : Except String Json := do
+  let S ← J.schema (← j.getObjVal? "schema")
+  match Rpc.rpc S with
+  | none => return Json.mkObj [("none", true)]
+  | some S' =>
+    let tyJ : STy → Json
+      | .enum n => Json.arr #["enum", n]
+      | .struct n => Json.arr #["struct", n]
+      | _ => Json.arr #["other"]
+    let structs := (S'.structs.drop S.structs.length).map fun st =>
+      Json.mkObj [("name", st.name), ("fields", Json.arr (st.fields.map fun f =>
+        Json.arr #[Json.str f.name, Json.num ⟨f.id, 0⟩, tyJ f.ty]).toArray)]
+    let enums := (S'.enums.drop S.enums.length).map fun e =>
+      Json.mkObj [("name", e.name), ("items", Json.arr (e.enumeration.map fun x =>
+        Json.arr #[Json.str x.name, Json.num ⟨x.value, 0⟩]).toArray)]
+    let impls := (S'.impls.drop S.impls.length).map fun i => Json.arr #[Json.str i.name, Json.str i.protocol, Json.str i.type]
+    return Json.mkObj [("structs", Json.arr structs.toArray), ("enums", Json.arr enums.toArray), ("impls", Json.arr impls.toArray)]
+
 def dispatch (j : Json) : Except String Json := do
   let op ← j.getObjValAs? String "op"
   match op with
@@ -456,6 +475,7 @@ def dispatch (j : Json) : Except String Json := do
   | "cpp" => opCpp j
   | "frame" => opFrame j
   | "render" => opRender j
+  | "rpc" => opRpc j
   | "utf8" => do
     -- which byte strings are texts: `utf8Valid` on each of the given byte lists
     let items ← j.getObjValAs? (Array Json) "items"
